@@ -25,8 +25,23 @@ Section World.
     Gen_veq : forall f x g g' v, Gen f (x, g, v) -> veq g g' -> Gen f (x, g', v);
     (* ... and at the point through its value as seen by every inner product (the stationary sample's point
        is read back as 1 * leaf + 0) *)
-    Gen_xveq : forall f x x' g v, Gen f (x, g, v) -> veq x x' -> Gen f (x', g, v)
+    Gen_xveq : forall f x x' g v, Gen f (x, g, v) -> veq x x' -> Gen f (x', g, v);
+    (* proximal operator (resolvent) of the functions that have one: [prox f gamma x0] is the proximal point
+       of step gamma > 0 from x0 and [proxval f gamma x0] the function value there.  Specification only (that
+       (x0 - prox)/gamma is a subgradient at the proximal point of a convex function is C08's theorem, used
+       when a world is built): the proximal point with (x0 - prox)/gamma and that value is a genuine sample.
+       Functions without a proximal operator have [has_prox f = false]; a program may only take proximal
+       steps on flagged functions ([prox_ok]). *)
+    has_prox : nat -> bool;
+    prox : nat -> R -> E -> E;
+    proxval : nat -> R -> E -> R;
+    prox_genuine : forall f gamma x0, has_prox f = true -> 0 < gamma ->
+      Gen f (prox f gamma x0, vscal (1 / gamma) (vsub x0 (prox f gamma x0)), proxval f gamma x0)
   }.
+
+  (** the program takes proximal steps only on functions of the world that have a proximal operator *)
+  Definition prox_ok (W : world) (ops : list mop) : bool :=
+    forallb (fun o => match o with MProx f _ _ => has_prox W f | _ => true end) ops.
 
   Definition upd {A} (h : nat -> A) (k : nat) (a : A) : nat -> A :=
     fun i => if Nat.eqb i k then a else h i.
@@ -41,6 +56,13 @@ Section World.
         (upd (fst vs) (m_np s) (fst (orc W f x)), upd (snd vs) (m_ne s) (snd (orc W f x)))
     | MStat f =>
         (upd (fst vs) (m_np s) (fst (stat W f)), upd (snd vs) (m_ne s) (snd (stat W f)))
+    | MProx f p gamma =>
+        (* the fresh subgradient leaf gets (x0 - prox)/gamma, the fresh value leaf the value at the proximal
+           point; the recorded point p - gamma * gx then evaluates to the proximal point *)
+        let x0 := evalP (fst vs) p in
+        let g := Q2R gamma in
+        (upd (fst vs) (m_np s) (vscal (1 / g) (vsub x0 (prox W f g x0))),
+         upd (snd vs) (m_ne s) (proxval W f g x0))
     end.
 
   Fixpoint wrun (W : world) (ops : list mop) (s : mstate) (vs : (nat -> E) * (nat -> R))
